@@ -1,17 +1,20 @@
-import CV.Proofs.RangeDecTotal
+import CV.Proofs.RangeConcat
 /-!
 # C11 — Range-coded data is unaffected by what follows (component `range`)
 
 Full for `State = 2·Word` (which includes `DefaultRangeEncoder` and `SmallRangeEncoder`).
 For `State > 2·Word` the property is **false** of the code and of the documented sealing rule
 (defect D3): `C11_range_suffix_counterexample`.  What remains true for every width is
-`C11_range_suffix_immune_partial`.
+`C11_range_suffix_immune_partial`.  The property's second clause (an encoder started on a sink
+that already holds data; sealed messages stored back to back) is
+`C11_range_with_backend_words`, `C11_range_back_to_back_2W`, `C11_range_back_to_back_partial`.
+`MsgFits c n`: the message is short enough for the 64-bit `usize` counters (see C02_range).
 -/
 namespace CV.Range
 
 /-- the full statement of the property at one configuration -/
 def C11_range_SuffixImmune (c : Cfg) : Prop :=
-  ∀ (msg : List (MStep Nat)), (∀ x ∈ msg, x.Valid c) →
+  ∀ (msg : List (MStep Nat)), MsgFits c msg.length → (∀ x ∈ msg, x.Valid c) →
   ∀ (suffix : List Nat), WordsOK c suffix →
     ∃ e ws d0 d, encodeMsg c (Encoder.empty c) msg = .ok e ∧
       intoCompressed c e = .ok ws ∧
@@ -21,37 +24,37 @@ def C11_range_SuffixImmune (c : Cfg) : Prop :=
 /-- **C11 for `State = 2·Word`**: any suffix (any length, any content) leaves decoding
     unchanged — for all symbol types, messages and models. -/
 theorem C11_range_suffix_immune_2W {Sym : Type} {c : Cfg} (hc : RValid c) (h2 : c.S = 2 * c.W)
-    (msg : List (MStep Sym)) (hv : ∀ x ∈ msg, x.Valid c)
+    (msg : List (MStep Sym)) (hn : MsgFits c msg.length) (hv : ∀ x ∈ msg, x.Valid c)
     (suffix : List Nat) (hs : WordsOK c suffix) :
     ∃ e ws d0 d, encodeMsg c (Encoder.empty c) msg = .ok e ∧
       intoCompressed c e = .ok ws ∧
       Decoder.fromCompressed c (ws ++ suffix) = .ok d0 ∧
       decodeMsg c d0 msg = .ok (msg.map (·.sym), d) :=
-  suffix_immune_2W hc h2 msg hv suffix hs
+  suffix_immune_2W hc h2 msg hn hv suffix hs
 
 theorem C11_range_SuffixImmune_2W {c : Cfg} (hc : RValid c) (h2 : c.S = 2 * c.W) :
     C11_range_SuffixImmune c :=
-  fun msg hv suffix hs => suffix_immune_2W hc h2 msg hv suffix hs
+  fun msg hn hv suffix hs => suffix_immune_2W hc h2 msg hn hv suffix hs
 
 /-- **partial, every width**: if sealing emits one word, or emits two and the interval's upper
     end is at least `2^(S-2W)` above the point (`D3Safe`), any suffix leaves decoding
     unchanged.  Missing for the full statement at `S > 2W`: the case of two seal words with
     `upper − point_word·2^(S-W) < 2^(S-2W)`, where the statement is false (below). -/
 theorem C11_range_suffix_immune_partial {Sym : Type} {c : Cfg} (hc : RValid c)
-    (msg : List (MStep Sym)) (hv : ∀ x ∈ msg, x.Valid c)
+    (msg : List (MStep Sym)) (hn : MsgFits c msg.length) (hv : ∀ x ∈ msg, x.Valid c)
     (hsafe : D3Safe c (RangeSpec.run c.W c.S (RangeSpec.init c.S) (msg.map MStep.spec)))
     (suffix : List Nat) (hs : WordsOK c suffix) :
     ∃ e ws d0 d, encodeMsg c (Encoder.empty c) msg = .ok e ∧
       intoCompressed c e = .ok ws ∧
       Decoder.fromCompressed c (ws ++ suffix) = .ok d0 ∧
       decodeMsg c d0 msg = .ok (msg.map (·.sym), d) :=
-  suffix_immune_of_safe hc msg hv hsafe suffix hs
+  suffix_immune_of_safe hc msg hn hv hsafe suffix hs
 
 /-- **the failed obligation, kept visible**: at `Word` = 2 bits, `State` = 6 bits the message
     `d3Msg` seals to `[2, 0]`; followed by all-ones words its last symbol decodes as 2, not 1. -/
 theorem C11_range_suffix_counterexample : ¬ C11_range_SuffixImmune d3Cfg := by
   intro h
-  obtain ⟨e, ws, d0, d, he, hws, hd0, hd⟩ := h d3Msg d3Msg_valid [3, 3, 3] (wordsOK_of_all (by decide))
+  obtain ⟨e, ws, d0, d, he, hws, hd0, hd⟩ := h d3Msg (by decide) d3Msg_valid [3, 3, 3] (wordsOK_of_all (by decide))
   have h1 := d3_sealed
   unfold sealedWords at h1
   rw [he] at h1
@@ -64,6 +67,49 @@ theorem C11_range_suffix_counterexample : ¬ C11_range_SuffixImmune d3Cfg := by
   revert h2
   decide
 
+/-- **second clause, part 1**: an encoder started with `with_backend` on a sink that already
+    holds the words `pre` seals to `pre` followed by exactly the words the message has on its
+    own (`RangeSpec.words`); nothing already on the sink is touched. -/
+theorem C11_range_with_backend_words {Sym : Type} {c : Cfg} (hc : RValid c) {pre : List Nat}
+    (hpre : WordsOK c pre) (msg : List (MStep Sym)) (hn : MsgFits c (pre.length + msg.length))
+    (hv : ∀ x ∈ msg, x.Valid c) :
+    ∃ e, encodeMsg c (Encoder.withBackend c pre) msg = .ok e ∧
+      intoCompressed c e = .ok (pre ++ RangeSpec.words c.W c.S (msg.map MStep.spec)) := by
+  obtain ⟨e, he, _, hw⟩ := with_backend_words hc hpre msg hn hv
+  exact ⟨e, he, hw⟩
+
+/-- **second clause, part 2, `State = 2·Word`**: two sealed messages stored back to back: the
+    first decodes from the concatenation, and any decoder over the concatenation that seeks to
+    the end of the first message's words (with the initial coder state) decodes the second. -/
+theorem C11_range_back_to_back_2W {Sym : Type} {c : Cfg} (hc : RValid c) (h2 : c.S = 2 * c.W)
+    (msg1 msg2 : List (MStep Sym)) (hn1 : MsgFits c msg1.length) (hn2 : MsgFits c msg2.length)
+    (hv1 : ∀ x ∈ msg1, x.Valid c) (hv2 : ∀ x ∈ msg2, x.Valid c) :
+    ∃ ws1 ws2, ws1 = RangeSpec.words c.W c.S (msg1.map MStep.spec) ∧
+      ws2 = RangeSpec.words c.W c.S (msg2.map MStep.spec) ∧
+      (∃ d0 d, Decoder.fromCompressed c (ws1 ++ ws2) = .ok d0 ∧
+        decodeMsg c d0 msg1 = .ok (msg1.map (·.sym), d)) ∧
+      (∀ dd : Decoder, dd.data = ws1 ++ ws2 →
+        ∃ d' d'', dd.seek c ws1.length 0 (maxState c) = .ok d' ∧
+          decodeMsg c d' msg2 = .ok (msg2.map (·.sym), d'')) :=
+  back_to_back_2W hc h2 msg1 msg2 hn1 hn2 hv1 hv2
+
+/-- the same for every width under `D3Safe` of the first message's final state (partial: the
+    unsafe case is the open defect D3) -/
+theorem C11_range_back_to_back_partial {Sym : Type} {c : Cfg} (hc : RValid c)
+    (msg1 msg2 : List (MStep Sym)) (hn1 : MsgFits c msg1.length) (hn2 : MsgFits c msg2.length)
+    (hv1 : ∀ x ∈ msg1, x.Valid c) (hv2 : ∀ x ∈ msg2, x.Valid c)
+    (hsafe : D3Safe c (RangeSpec.run c.W c.S (RangeSpec.init c.S) (msg1.map MStep.spec))) :
+    ∃ ws1 ws2, ws1 = RangeSpec.words c.W c.S (msg1.map MStep.spec) ∧
+      ws2 = RangeSpec.words c.W c.S (msg2.map MStep.spec) ∧
+      (∃ d0 d, Decoder.fromCompressed c (ws1 ++ ws2) = .ok d0 ∧
+        decodeMsg c d0 msg1 = .ok (msg1.map (·.sym), d)) ∧
+      (∀ dd : Decoder, dd.data = ws1 ++ ws2 →
+        ∃ d' d'', dd.seek c ws1.length 0 (maxState c) = .ok d' ∧
+          decodeMsg c d' msg2 = .ok (msg2.map (·.sym), d'')) :=
+  back_to_back_of_safe hc msg1 msg2 hn1 hn2 hv1 hv2 hsafe
+
+example : WordsOK exCfg [1, 2, 3] ∧ MsgFits exCfg ([1, 2, 3].length + exMsg.length) :=
+  ⟨wordsOK_of_all (by decide), by decide⟩
 example : RValid exCfg ∧ exCfg.S = 2 * exCfg.W := ⟨exCfg_valid, rfl⟩
 example : ∀ x ∈ exMsg, x.Valid exCfg := exMsg_valid
 example : decodedSyms exCfg ([127, 29, 86] ++ [255, 255, 255]) exMsg = some [1, 1, 2, 0, 1] := by
@@ -76,3 +122,6 @@ end CV.Range
 #print axioms CV.Range.C11_range_SuffixImmune_2W
 #print axioms CV.Range.C11_range_suffix_immune_partial
 #print axioms CV.Range.C11_range_suffix_counterexample
+#print axioms CV.Range.C11_range_with_backend_words
+#print axioms CV.Range.C11_range_back_to_back_2W
+#print axioms CV.Range.C11_range_back_to_back_partial
